@@ -36,13 +36,19 @@ static CUR: AtomicUsize = AtomicUsize::new(0);
 static PEAK: AtomicUsize = AtomicUsize::new(0);
 static MAXREQ: AtomicUsize = AtomicUsize::new(0);
 static REFUSED: AtomicUsize = AtomicUsize::new(0);
+static CAPPED: AtomicUsize = AtomicUsize::new(0); // a request was refused because the live bytes would exceed the budget
 static REQ_LIMIT: AtomicUsize = AtomicUsize::new(usize::MAX);
 static LIVE_LIMIT: AtomicUsize = AtomicUsize::new(usize::MAX);
 
 #[inline]
 fn admit(size: usize) -> bool {
-    if size > REQ_LIMIT.load(Relaxed) || CUR.load(Relaxed).saturating_add(size) > LIVE_LIMIT.load(Relaxed) {
+    if size > REQ_LIMIT.load(Relaxed) {
         REFUSED.fetch_max(size, Relaxed);
+        return false;
+    }
+    if CUR.load(Relaxed).saturating_add(size) > LIVE_LIMIT.load(Relaxed) {
+        REFUSED.fetch_max(size, Relaxed);
+        CAPPED.store(1, Relaxed);
         return false;
     }
     true
@@ -81,6 +87,9 @@ unsafe impl GlobalAlloc for Counting {
     unsafe fn realloc(&self, p: *mut u8, l: Layout, new_size: usize) -> *mut u8 {
         let grow = new_size.saturating_sub(l.size());
         if new_size > REQ_LIMIT.load(Relaxed) || (grow > 0 && CUR.load(Relaxed).saturating_add(grow) > LIVE_LIMIT.load(Relaxed)) {
+            if new_size <= REQ_LIMIT.load(Relaxed) {
+                CAPPED.store(1, Relaxed);
+            }
             REFUSED.fetch_max(new_size, Relaxed);
             return std::ptr::null_mut();
         }
@@ -272,10 +281,28 @@ fn chain_update(kind: &str, m: usize, start: usize, hdr: usize, prevsx: &str) ->
         return b;
     }
     let mut offs = Vec::with_capacity(m);
+    if kind == "nested" {
+        // stream objects inside one another, closed by one endstream; the Length of object i covers the headers behind it
+        let head = |i: usize, len: usize| format!("{} 0 obj\n<</Length {:010}>>stream\n", FIRST + i - 1, len);
+        let mut suf = vec![0usize; m + 2];
+        for i in (1..=m).rev() {
+            suf[i] = head(i, 0).len() + suf[i + 1];
+        }
+        for i in 1..=m {
+            offs.push(start + b.len() - hdr);
+            b.extend_from_slice(head(i, suf[i + 1] + 1).as_bytes());
+        }
+        b.extend_from_slice(b"x\nendstream\nendobj\n");
+    }
     for i in 1..=m {
+        if kind == "nested" {
+            break;
+        }
         offs.push(start + b.len() - hdr);
         let (num, nxt, prv) = (FIRST + i - 1, FIRST + i, (FIRST + i).wrapping_sub(2));
         let body = match kind {
+            "bigfirst" if i == 1 => format!("<</Length {}>>\nstream\n{}\nendstream", 128 * m, "x".repeat(128 * m)),
+            "bigfirst" => "<<>>".to_string(),
             "length" if i == m => "<</Length 3>>\nstream\nabc\nendstream".to_string(),
             "length" => format!("<</Length {nxt} 0 R>>\nstream\nabc\nendstream"),
             "length.objstm" if i == m => "<</Type/ObjStm/N 1/First 4/Length 5>>\nstream\n7 0 3\nendstream".to_string(),
@@ -568,6 +595,7 @@ fn worker_case(line: &str) -> String {
     PEAK.store(base, Relaxed);
     MAXREQ.store(0, Relaxed);
     REFUSED.store(0, Relaxed);
+    CAPPED.store(0, Relaxed);
     REQ_LIMIT.store(req_limit, Relaxed);
     LIVE_LIMIT.store(base.saturating_add(live_limit), Relaxed);
     let t0 = Instant::now();
@@ -592,13 +620,13 @@ fn worker_case(line: &str) -> String {
         }
     }
     match r {
-        Ok(x) => json!({"id": id, "res": x.res, "msg": x.note, "loc": "", "us": us, "maxreq": maxreq, "refused": refused, "peak": peak, "dig": dig}),
+        Ok(x) => json!({"id": id, "res": x.res, "msg": x.note, "loc": "", "us": us, "maxreq": maxreq, "refused": refused, "capped": CAPPED.load(Relaxed) == 1, "peak": peak, "dig": dig}),
         Err((msg, loc)) => {
             if ep != "selftest" && (loc.starts_with("harness:") || msg.starts_with("harness:") || msg.starts_with("tla_to_obj")) {
                 return json!({"harness_error": format!("{msg} at {loc}")}).to_string();
             }
             json!({"id": id, "res": "panic", "msg": msg.chars().take(200).collect::<String>(), "loc": loc, "mcl": msgclass(&msg), "us": us,
-                   "maxreq": maxreq, "refused": refused, "peak": peak, "dig": ""})
+                   "maxreq": maxreq, "refused": refused, "capped": CAPPED.load(Relaxed) == 1, "peak": peak, "dig": ""})
         }
     }
     .to_string()
@@ -756,7 +784,7 @@ fn run(args: &[String]) {
                                 break;
                             }
                             Ok(v) => json!({"id": recs[i]["id"], "ran": true, "kind": kind_of_answer(&v), "msg": v["msg"], "loc": v["loc"],
-                                            "mcl": v.get("mcl").cloned().unwrap_or(json!("")), "us": v["us"], "maxreq": v["maxreq"], "refused": v["refused"], "peak": v["peak"], "dig": v["dig"]}),
+                                            "mcl": v.get("mcl").cloned().unwrap_or(json!("")), "us": v["us"], "maxreq": v["maxreq"], "refused": v["refused"], "capped": v.get("capped").cloned().unwrap_or(json!(false)), "peak": v["peak"], "dig": v["dig"]}),
                             Err(e) => {
                                 *fatal.lock().unwrap() = Some(format!("worker answered garbage: {e}: {l}"));
                                 break;
@@ -776,7 +804,7 @@ fn run(args: &[String]) {
                                     }
                                     json!({"id": recs[i]["id"], "ran": true, "kind": kind_of_answer(a), "msg": a["msg"], "loc": a["loc"],
                                            "mcl": a.get("mcl").cloned().unwrap_or(json!("")), "us": a["us"],
-                                           "maxreq": a["maxreq"], "refused": a["refused"], "peak": a["peak"], "dig": a["dig"],
+                                           "maxreq": a["maxreq"], "refused": a["refused"], "capped": a.get("capped").cloned().unwrap_or(json!(false)), "peak": a["peak"], "dig": a["dig"],
                                            "note": if was_hang { "first run exceeded the time limit, answered alone within 3x" } else { "first run lost with its worker, answered alone" }})
                                 }
                                 kind => {
@@ -972,7 +1000,7 @@ const OBJ_TOKS: &[&str] = &["<<", ">>", "[", "]", "(", ")", "R", "/", "<", ">", 
 
 fn seed_rec(ep: &str, bytes: &[u8], dict: Value, toks_: Value, tag: &str) -> Value {
     // txt: the payload is text a lexical scan can find sites in (not compressed / binary data)
-    let txt = matches!(ep, "file" | "content") || tag == "cmap" || tag == "objstm";
+    let txt = (matches!(ep, "file" | "content") || tag == "cmap" || tag == "objstm") && !tag.starts_with("amp:");
     json!({"ep": ep, "bytes": bytes_to_json(bytes), "dict": dict, "toks": toks_, "tag": tag, "txt": txt})
 }
 
@@ -1160,6 +1188,71 @@ fn seeds(args: &[String]) {
             out.put(&seed_rec("xrefstm", &zlib(&png), pairs(d), toks(BIN_TOKS), "xrefstm.flate+png"));
         }
     }
+    // amplification: legal inputs built so that a small input stands for a lot of work or memory (tags "amp:...")
+    {
+        let zeros = vec![0u8; 96 << 20];
+        let z2 = zlib(&zlib(&zeros));
+        out.put(&seed_rec("filter", &z2, pairs(vec![("Filter", tarr(vec![tname("FlateDecode"), tname("FlateDecode")]))]), toks(BIN_TOKS), "amp:flate2"));
+        // run-length: 0x81 0x00 = 128 zero bytes, 0x80 = end of data
+        let mut rl = Vec::with_capacity((zeros.len() / 128) * 2 + 1);
+        for _ in 0..zeros.len() / 128 {
+            rl.extend_from_slice(&[0x81, 0x00]);
+        }
+        rl.push(0x80);
+        let z2rl = zlib(&zlib(&rl));
+        out.put(&seed_rec("filter", &z2rl, pairs(vec![("Filter", tarr(vec![tname("FlateDecode"), tname("FlateDecode"), tname("RunLengthDecode")]))]),
+            toks(BIN_TOKS), "amp:flate2rl"));
+        // an object stream whose payload is blanks behind one small object, filtered twice
+        let mut os = b"7 0 3".to_vec();
+        os.resize(96 << 20, b' ');
+        let osz = zlib(&zlib(&os));
+        let d = vec![("Type", tname("ObjStm")), ("N", tint(1)), ("First", tint(4)), ("Filter", tarr(vec![tname("FlateDecode"), tname("FlateDecode")]))];
+        out.put(&seed_rec("objstm", &osz, pairs(d), toks(BIN_TOKS), "amp:objstm-flate2"));
+        // the same inside a file: object stream 3 holds object 7
+        let mut f: Vec<u8> = b"%PDF-1.5\n1 0 obj\n<</Type/Catalog>>\nendobj\n".to_vec();
+        let o3 = f.len();
+        f.extend_from_slice(format!("3 0 obj\n<</Type/ObjStm/N 1/First 4/Filter[/FlateDecode/FlateDecode]/Length {}>>stream\n", osz.len()).as_bytes());
+        f.extend_from_slice(&osz);
+        f.extend_from_slice(b"\nendstream\nendobj\n");
+        let x = f.len();
+        f.extend_from_slice(format!("xref\n0 4\n0000000000 65535 f \n0000000009 00000 n \n0000000000 65535 f \n{o3:010} 00000 n \ntrailer\n<</Size 8/Root 1 0 R>>\nstartxref\n{x}\n%%EOF\n").as_bytes());
+        out.put(&seed_rec("file", &f, none.clone(), toks(PDF_TOKS), "amp:file-objstm-flate2"));
+        // object-stream index pairs that all name one offset, where one large array stands
+        let npairs = 1500usize;
+        let mut idx = String::new();
+        for _ in 0..npairs {
+            idx.push_str("00007 000000 ");
+        }
+        let mut body = idx.clone().into_bytes();
+        body.push(b'[');
+        for _ in 0..7500 {
+            body.extend_from_slice(b"0 ");
+        }
+        body.push(b']');
+        let d = vec![("Type", tname("ObjStm")), ("N", tint(npairs as i64)), ("First", tint(idx.len() as i64)), ("Filter", tname("FlateDecode"))];
+        out.put(&seed_rec("objstm", &zlib(&body), pairs(d), toks(BIN_TOKS), "amp:objstm-repeat"));
+        // cross-reference stream rows that all carry the offset of one large array
+        let mut f: Vec<u8> = b"%PDF-1.5\n1 0 obj\n<</Type/Catalog>>\nendobj\n".to_vec();
+        let o2 = f.len();
+        f.extend_from_slice(b"2 0 obj[");
+        for _ in 0..7500 {
+            f.extend_from_slice(b"0 ");
+        }
+        f.extend_from_slice(b"]endobj\n");
+        let x = f.len();
+        let nrows = 3000usize;
+        let mut rows: Vec<u8> = vec![0, 0, 0, 0];
+        rows.extend_from_slice(&[1, 0, 0, 9]);
+        for _ in 2..nrows {
+            rows.extend_from_slice(&[1, (o2 >> 16) as u8, (o2 >> 8) as u8, o2 as u8]);
+        }
+        rows.extend_from_slice(&[1, (x >> 16) as u8, (x >> 8) as u8, x as u8]);
+        let rz = zlib(&rows);
+        f.extend_from_slice(format!("{} 0 obj\n<</Type/XRef/Size {}/W[1 3 0]/Root 1 0 R/Filter/FlateDecode/Length {}>>stream\n", nrows, nrows + 1, rz.len()).as_bytes());
+        f.extend_from_slice(&rz);
+        f.extend_from_slice(format!("\nendstream\nendobj\nstartxref\n{x}\n%%EOF\n").as_bytes());
+        out.put(&seed_rec("file", &f, none.clone(), toks(PDF_TOKS), "amp:file-xref-shared-offset"));
+    }
     // text strings
     let texts: Vec<Vec<u8>> = vec![
         b"plain ASCII text".to_vec(), b"\xFE\xFF\x00H\x00i\xD8\x3D\xDE\x00".to_vec(), b"\xEF\xBB\xBFutf8 \xC3\xA9\xE2\x82\xAC".to_vec(),
@@ -1237,8 +1330,8 @@ fn bulk(args: &[String]) {
         let tmo = ((3000 + n / 50 + 999) / 1000) * 1000;
         out.put(&json!({"id": first_id + i, "ep": if i % 5 == 4 { "incload" } else { "load" }, "hex": hex_of(&b), "dict": [], "src": format!("bulk:{tag}"),
                         "muts": muts, "mclass": mc, "len": b.len(), "tmo_ms": tmo,
-                        "use": ["streams.decompress", "pages.content", "pages.decode", "fonts.decode", "extract_text"], "req_limit": (64u64 << 20) + 4096 * n.min(400000),
-                        "live_limit": (512u64 << 20) + 4096 * n}));
+                        "use": ["streams.decompress", "pages.content", "pages.decode", "fonts.decode", "extract_text"], "req_limit": (64u64 << 20) + (4096 * n.min(300000)).min(1 << 30) + 32 * n.min(20000000),
+                        "live_limit": (64u64 << 20) + (4096 * n.min(300000)).min(1 << 30) + 32 * n.min(20000000)}));
     }
     out.finish();
 }
